@@ -156,7 +156,7 @@ def run(ctx):
 
     # ---- leg G: seeds -> TLC enumerates the mutation plans -> real parser
     seeds_all = os.path.join(ctx.work, "seeds_all.ndjson")
-    _harness(ctx, "TestVerifC12Seeds", {"C12_SEEDS_OUT": seeds_all, "C12_NGEN": 24 if q else 96, "C12_MAXLEN": 96}, 300)
+    _harness(ctx, "TestVerifC12Seeds", {"C12_SEEDS_OUT": seeds_all, "C12_NGEN": 48 if q else 96, "C12_MAXLEN": 96}, 300)
     with open(seeds_all) as f:
         seeds = [l for l in f if l.strip()]
     if not seeds:
@@ -164,10 +164,11 @@ def run(ctx):
     used = seeds
     if q:
         rnd = random.Random(ctx.seed)
+        directed = [s for s in seeds if '"name":"dir#' in s]
         gen = [s for s in seeds if '"name":"gen' in s]
-        frag = [s for s in seeds if '"name":"gen' not in s]
-        used = rnd.sample(gen, min(6, len(gen))) + rnd.sample(frag, min(6, len(frag)))
-        used = [s for s in used if len(json.loads(s)["b"]) <= 48] or used[:4]
+        frag = [s for s in seeds if '"name":"gen' not in s and '"name":"dir#' not in s]
+        used = rnd.sample(gen, min(24, len(gen))) + rnd.sample(frag, min(16, len(frag)))
+        used = directed + ([s for s in used if len(json.loads(s)["b"]) <= 64] or used[:4])
     seeds_path = os.path.join(ctx.work, "seeds.ndjson")
     with open(seeds_path, "w") as f:
         f.writelines(used)
@@ -194,9 +195,9 @@ def run(ctx):
         for c in CORPUS:
             f.write(json.dumps({"id": c["id"], "src": "corpus: " + c["note"], "hex": c["hex"], "pre": c.get("pre", [])}) + "\n")
     trace = os.path.join(ctx.work, "trace.ndjson")
-    nsmall, ntables = (6000, 36) if q else (400000, 1500)
+    nsmall, ntables = (20000, 60) if q else (400000, 1500)
     _harness(ctx, "TestVerifC12Run", {"C12_CASES": corpus + ":" + ":".join(case_files), "C12_ID_PREFIX": "g", "C12_GEN": "small:%d,tables:%d" % (nsmall, ntables),
-                                      "C12_TRACE_OUT": trace, "C12_PAR": 4 if q else 8}, 2400)
+                                      "C12_TRACE_OUT": trace, "C12_PAR": 8}, 2400)
 
     # ---- leg V: TLC judges every event (one monitor run over all legs; few JVMs: the machine is shared)
     hist, nev = _scan(ctx, trace)
